@@ -71,3 +71,17 @@ Definition add (x : text) (l : list text) : list text := if mem_text x l then l 
 Fixpoint remove (x : text) (l : list text) : list text :=
   match l with [] => [] | y :: r => if text_eqb x y then remove x r else y :: remove x r end.
 Definition union (a b : list text) : list text := fold_right add a b.
+
+(* ---- resources and their __parent__ pointers (pyramid.location.lineage, regenerated as gen_lineage).
+   A resource is an index into the world; reading r.__parent__ raises AttributeError (PMissing), gives None (PNone)
+   or another resource (PTo).  An index outside the world has no attributes at all. *)
+Inductive ptr := PMissing | PNone | PTo (r : nat).
+Record node := mkNode { nparent : ptr; nacl : option acl }.
+Definition world := list node.
+Definition parent_of (W : world) (r : nat) : ptr :=
+  match nth_error W r with Some n => nparent n | None => PMissing end.
+Definition acl_of (W : world) (r : nat) : option acl :=
+  match nth_error W r with Some n => nacl n | None => None end.
+(* the generator's output so far, or None once the fuel ran out (a __parent__ cycle: the real generator never ends) *)
+Definition ocons (x : nat) (o : option (list nat)) : option (list nat) :=
+  match o with Some l => Some (x :: l) | None => None end.
